@@ -184,3 +184,509 @@ Example civil_bijection_ex :
   civil_of_days 11016 = (2000, 2, 29) /\ days_of_civil 2000 2 29 = 11016 /\
   civil_of_days (-719528) = (0, 1, 1) /\ civil_of_days 2932896 = (9999, 12, 31).
 Proof. vm_compute. repeat split. Qed.
+
+(* ------------------------------------------------------------------------------------------ *)
+(** * The calendar law: consecutive day numbers are consecutive dates *)
+
+Lemma month_cases m : 1 <= m <= 12 ->
+  m = 1 \/ m = 2 \/ m = 3 \/ m = 4 \/ m = 5 \/ m = 6 \/ m = 7 \/ m = 8 \/ m = 9 \/
+  m = 10 \/ m = 11 \/ m = 12.
+Proof. lia. Qed.
+
+(* days_of_civil is linear in the day *)
+Lemma days_of_civil_day y m d k : days_of_civil y m (d + k) = days_of_civil y m d + k.
+Proof. unfold days_of_civil. destruct (m <=? 2), (2 <? m); lia. Qed.
+
+(* first of next month = last of this month + 1 *)
+Lemma days_of_civil_month_end y m : 1 <= m <= 11 ->
+  days_of_civil y (m + 1) 1 = days_of_civil y m (days_in_month y m) + 1.
+Proof.
+  intros Hm.
+  destruct (month_cases m ltac:(lia)) as [->|[->|[->|[->|[->|[->|[->|[->|[->|[->|[->| ->]]]]]]]]]]];
+    try lia.
+  all: unfold days_of_civil, days_in_month, is_leap.
+  all: repeat match goal with |- context [if ?b then _ else _] =>
+         let v := eval vm_compute in b in
+         match v with
+         | true => change b with true; cbv iota
+         | false => change b with false; cbv iota
+         end end.
+  all: try lia.
+  - (* February -> March *)
+    destruct (y mod 4 =? 0) eqn:E4, (y mod 100 =? 0) eqn:E100, (y mod 400 =? 0) eqn:E400;
+    cbn [andb orb negb]; lia.
+Qed.
+
+Lemma days_of_civil_year_end y : days_of_civil (y + 1) 1 1 = days_of_civil y 12 31 + 1.
+Proof.
+  unfold days_of_civil.
+  repeat match goal with |- context [if ?b then _ else _] =>
+         let v := eval vm_compute in b in
+         match v with
+         | true => change b with true; cbv iota
+         | false => change b with false; cbv iota
+         end end.
+  replace (y + 1 - 1) with y by lia. lia.
+Qed.
+
+Lemma valid_date_model y m d :
+  valid_date y m d <-> (1 <= m <= 12 /\ 1 <= d <= days_in_month y m).
+Proof.
+  unfold valid_date. split; intros [Hm Hd]; split; auto.
+  - now rewrite days_in_month_spec.
+  - now rewrite <- days_in_month_spec.
+Qed.
+
+(* the day after a valid date is a valid date, one day number later *)
+Lemma days_of_civil_next y m d : valid_date y m d ->
+  let '(y2, m2, d2) := next_day (y, m, d) in
+  valid_date y2 m2 d2 /\ days_of_civil y2 m2 d2 = days_of_civil y m d + 1.
+Proof.
+  intros Hv. pose proof Hv as [Hm Hd]. unfold next_day.
+  destruct (d <? month_length y m) eqn:E1.
+  - split; [unfold valid_date; lia|]. apply days_of_civil_day.
+  - assert (d = month_length y m) as -> by lia.
+    destruct (m <? 12) eqn:E2.
+    + split.
+      * unfold valid_date. split; [lia|].
+        destruct (month_cases m Hm) as [->|[->|[->|[->|[->|[->|[->|[->|[->|[->|[->| ->]]]]]]]]]]];
+          cbn [month_length Z.add Pos.add Pos.succ]; try lia; destruct (leap_year y); lia.
+      * rewrite <- days_in_month_spec by lia. apply days_of_civil_month_end. lia.
+    + assert (m = 12) as -> by lia. cbn [month_length].
+      split; [unfold valid_date; cbn [month_length]; lia|]. apply days_of_civil_year_end.
+Qed.
+
+(** The model's day -> date function IS the proleptic Gregorian calendar counted from
+    1970-01-01. *)
+Theorem civil_of_days_is_calendar : is_calendar civil_of_days.
+Proof.
+  split; [vm_compute; reflexivity|].
+  intros z. pose proof (civil_bijection z) as Hb.
+  destruct (civil_of_days z) as [[y m] d]. destruct Hb as (Hz & Hm & Hd).
+  assert (valid_date y m d) as Hv by (apply valid_date_model; auto).
+  pose proof (days_of_civil_next y m d Hv) as Hn.
+  destruct (next_day (y, m, d)) as [[y2 m2] d2]. destruct Hn as [Hv2 Hn].
+  apply valid_date_model in Hv2. destruct Hv2 as [Hm2 Hd2].
+  rewrite <- Hz, <- Hn. apply civil_of_days_of_civil; auto.
+Qed.
+Print Assumptions civil_of_days_is_calendar.
+
+(* next_day is injective on valid dates, hence the two clauses of is_calendar determine the
+   function on negative day numbers too *)
+Lemma next_day_inj y m d y' m' d' : valid_date y m d -> valid_date y' m' d' ->
+  next_day (y, m, d) = next_day (y', m', d') -> (y, m, d) = (y', m', d').
+Proof.
+  intros Hv Hv' He.
+  pose proof (days_of_civil_next y m d Hv) as H1.
+  pose proof (days_of_civil_next y' m' d' Hv') as H2.
+  rewrite <- He in H2. destruct (next_day (y, m, d)) as [[y2 m2] d2].
+  destruct H1 as [_ H1], H2 as [_ H2].
+  apply valid_date_model in Hv, Hv'. destruct Hv, Hv'.
+  rewrite <- (civil_of_days_of_civil y m d), <- (civil_of_days_of_civil y' m' d') by assumption.
+  f_equal. lia.
+Qed.
+
+Theorem calendar_unique f : is_calendar f ->
+  (forall z, let '(y, m, d) := f z in valid_date y m d) ->
+  forall z, f z = civil_of_days z.
+Proof.
+  intros [F0 FS] Fv. destruct civil_of_days_is_calendar as [C0 CS].
+  assert (forall n : nat, f (Z.of_nat n) = civil_of_days (Z.of_nat n)) as Hpos.
+  { induction n as [|n IH]; [simpl; congruence|].
+    rewrite Nat2Z.inj_succ. unfold Z.succ. now rewrite FS, CS, IH. }
+  assert (forall n : nat, f (- Z.of_nat n) = civil_of_days (- Z.of_nat n)) as Hneg.
+  { induction n as [|n IH]; [simpl; congruence|].
+    rewrite Nat2Z.inj_succ. unfold Z.succ.
+    set (z := - (Z.of_nat n + 1)). replace (- Z.of_nat n) with (z + 1) in IH by (subst z; lia).
+    rewrite FS, CS in IH.
+    pose proof (Fv z) as Hv. pose proof (civil_bijection z) as Hb.
+    destruct (f z) as [[y m] d], (civil_of_days z) as [[y' m'] d'].
+    apply next_day_inj; auto. apply valid_date_model. tauto. }
+  intros z. destruct (Z.le_gt_cases 0 z).
+  - rewrite <- (Z2Nat.id z) by lia. apply Hpos.
+  - replace z with (- Z.of_nat (Z.to_nat (- z))) by lia. apply Hneg.
+Qed.
+Print Assumptions calendar_unique.
+
+(* ------------------------------------------------------------------------------------------ *)
+(** * 2. weekday, year-day, ISO week *)
+
+Theorem weekday_spec : is_weekday weekday_of_days /\ forall z, 0 <= weekday_of_days z <= 6.
+Proof.
+  unfold is_weekday, weekday_of_days. split; [split; [reflexivity|]|]; intros z; lia.
+Qed.
+Print Assumptions weekday_spec.
+Example weekday_ex : weekday_of_days 17804 = 0 (* 2018-09-30 was a Sunday *).
+Proof. reflexivity. Qed.
+
+Lemma months_before_doy y m : 1 <= m <= 12 ->
+  days_of_civil y m 1 - days_of_civil y 1 1 = months_before y (Z.to_nat (m - 1)).
+Proof.
+  intros Hm.
+  assert (forall k : nat, (k <= 11)%nat ->
+            days_of_civil y (Z.of_nat k + 1) 1 - days_of_civil y 1 1 = months_before y k) as H.
+  { induction k as [|k IH]; intros Hk; [simpl; lia|].
+    cbn [months_before]. rewrite <- IH by lia.
+    rewrite Nat2Z.inj_succ. unfold Z.succ.
+    rewrite days_of_civil_month_end by lia.
+    replace (days_in_month y (Z.of_nat k + 1)) with (1 + (days_in_month y (Z.of_nat k + 1) - 1)) by lia.
+    rewrite days_of_civil_day. rewrite <- days_in_month_spec by lia. lia. }
+  specialize (H (Z.to_nat (m - 1)) ltac:(lia)).
+  rewrite Z2Nat.id in H by lia. replace (m - 1 + 1) with m in H by lia. exact H.
+Qed.
+
+(** YearDay is the day's rank in its year: d plus the lengths of the preceding months. *)
+Theorem yearday_spec : forall z,
+  let '(y, m, d) := civil_of_days z in yearday z = day_of_year y m d.
+Proof.
+  intros z. unfold yearday. pose proof (civil_bijection z) as Hb.
+  destruct (civil_of_days z) as [[y m] d]. destruct Hb as (Hz & Hm & Hd).
+  unfold day_of_year. rewrite <- months_before_doy by lia.
+  rewrite <- Hz at 1. replace d with (1 + (d - 1)) at 1 by lia. rewrite days_of_civil_day. lia.
+Qed.
+Print Assumptions yearday_spec.
+Example yearday_ex : yearday 19782 = 60 /\ civil_of_days 19782 = (2024, 2, 29).
+Proof. vm_compute. split; reflexivity. Qed.
+
+Lemma year_bounds z : let '(y, _, _) := civil_of_days z in
+  days_of_civil y 1 1 <= z < days_of_civil (y + 1) 1 1.
+Proof.
+  pose proof (civil_bijection z) as Hb. pose proof (yearday_spec z) as Hy. unfold yearday in Hy.
+  destruct (civil_of_days z) as [[y m] d]. destruct Hb as (Hz & Hm & Hd).
+  rewrite days_of_civil_year_end.
+  assert (days_of_civil y 12 31 = days_of_civil y 12 1 + 30) as H31.
+  { replace 31 with (1 + 30) by lia. apply days_of_civil_day. }
+  pose proof (months_before_doy y 12 ltac:(lia)) as H12.
+  pose proof (months_before_doy y m Hm) as Hmm.
+  assert (forall a b : nat, (a <= b)%nat -> (b <= 11)%nat ->
+          months_before y a + 28 * Z.of_nat (b - a) <= months_before y b) as Hmono.
+  { intros a b Hab Hb. induction b as [|b IH]; [replace a with 0%nat by lia; simpl; lia|].
+    destruct (Nat.eq_dec a (S b)) as [->|Hne]; [rewrite Nat.sub_diag; lia|].
+    cbn [months_before]. specialize (IH ltac:(lia) ltac:(lia)).
+    assert (28 <= month_length y (Z.of_nat (S b))).
+    { rewrite <- days_in_month_spec by lia. unfold days_in_month.
+      destruct (_ =? 2); [destruct (is_leap y); lia|]. destruct (_ || _); lia. }
+    lia. }
+  replace d with (1 + (d - 1)) in Hz by lia. rewrite days_of_civil_day in Hz.
+  pose proof (Hmono 0%nat (Z.to_nat (m - 1)) ltac:(lia) ltac:(lia)) as H0.
+  change (months_before y 0) with 0 in H0.
+  replace (Z.to_nat (12 - 1)) with 11%nat in H12 by reflexivity.
+  split; [lia|].
+  destruct (Z.eq_dec m 12) as [->|Hne].
+  - rewrite days_in_month_spec in Hd by lia. cbn [month_length] in Hd.
+    replace (Z.to_nat (12 - 1)) with 11%nat in Hmm by reflexivity. lia.
+  - pose proof (Hmono (S (Z.to_nat (m - 1))) 11%nat ltac:(lia) ltac:(lia)) as H1.
+    set (mb11 := months_before y 11) in *.
+    cbn [months_before] in H1.
+    replace (Z.of_nat (S (Z.to_nat (m - 1)))) with m in H1 by lia.
+    rewrite days_in_month_spec in Hd by lia. lia.
+Qed.
+
+(** ISOWeek: the model's (week-year, week) is the ISO 8601 week date of the day. *)
+Theorem iso_week_spec : forall z,
+  let '(wy, wk) := iso_week z in
+  is_iso_week days_of_civil weekday_of_days z wy wk /\ 1 <= wk <= 53.
+Proof.
+  intros z. unfold iso_week.
+  set (d0 := 4 - weekday_of_days z). set (d := if d0 =? 4 then -3 else d0). set (thu := z + d).
+  pose proof (year_bounds thu) as Hb.
+  destruct (civil_of_days thu) as [[y m'] d'].
+  unfold is_iso_week, iso_week1_start, monday_of.
+  assert (forall yy, days_of_civil yy 1 4 = days_of_civil yy 1 1 + 3) as H4
+    by (intros yy; apply (days_of_civil_day yy 1 1 3)).
+  rewrite !H4.
+  set (a := days_of_civil y 1 1) in *. set (b := days_of_civil (y + 1) 1 1) in *.
+  assert (b - a <= 366) as Hlen.
+  { subst a b. rewrite days_of_civil_year_end.
+    pose proof (months_before_doy y 12 ltac:(lia)) as H12.
+    replace 31 with (1 + 30) by lia. rewrite days_of_civil_day.
+    replace (Z.to_nat (12 - 1)) with 11%nat in H12 by reflexivity.
+    cbn [months_before month_length Z.of_nat Pos.of_succ_nat Pos.succ] in H12.
+    destruct (leap_year y); lia. }
+  unfold weekday_of_days in *. subst thu d d0.
+  clearbody a b. clear H4 m' d'.
+  destruct (4 - (z + 4) mod 7 =? 4) eqn:E.
+  all: split; [split|].
+  all: lia.
+Qed.
+Print Assumptions iso_week_spec.
+Example iso_week_ex :
+  iso_week 16800 = (2015, 53) (* 2015-12-31 *) /\ iso_week 16803 = (2015, 53) (* 2016-01-03 *) /\
+  iso_week 18627 = (2020, 53) (* 2020-12-31 *) /\ iso_week 18631 = (2021, 1) (* 2021-01-04 *).
+Proof. vm_compute. repeat split. Qed.
+
+
+(* ------------------------------------------------------------------------------------------ *)
+(** * 3. msToTime / timeToMS *)
+
+(* from here on lia also eliminates Go's truncated division (Z.quot / Z.rem) *)
+Ltac Zify.zify_post_hook ::= Z.to_euclidean_division_equations.
+
+(* msToTime(ms).UTC() is the instant: floor seconds and non-negative nanoseconds *)
+Lemma ms_to_time_fields ms :
+  unix_sec (ms_to_time ms) = ms / 1000 /\
+  nsec (ms_to_time ms) = (ms mod 1000) * 1000000 /\
+  offset (ms_to_time ms) = 0 /\ zname (ms_to_time ms) = "UTC"%string.
+Proof.
+  unfold ms_to_time, go_time_unix.
+  set (ns := Z.rem ms 1000 * 1000000).
+  destruct ((ns <? 0) || (1000000000 <=? ns)) eqn:E.
+  - assert (Z.quot ns 1000000000 = 0) as Hq by (subst ns; lia).
+    rewrite Hq.
+    destruct (ns - 0 * 1000000000 <? 0) eqn:E2; cbn [unix_sec nsec offset zname];
+      repeat split; subst ns; lia.
+  - cbn [unix_sec nsec offset zname]. repeat split; subst ns; lia.
+Qed.
+
+Lemma time_to_ms_of_ms ms :
+  time_to_ms (ms_to_time ms) = Z.quot (wrap64 (ms * 1000000)) 1000000.
+Proof.
+  unfold time_to_ms, unix_nano.
+  destruct (ms_to_time_fields ms) as (Hs & Hn & _). rewrite Hs, Hn.
+  f_equal. f_equal. lia.
+Qed.
+
+Lemma wrap64_id z : - two63 <= z < two63 -> wrap64 z = z.
+Proof. unfold wrap64, two63, two64. intros H. lia. Qed.
+
+(** timeToMS inverts msToTime exactly as long as ms*10^6 fits an int64 (1677-09-21 .. 2262-04-11). *)
+Theorem ms_to_time_inverse : forall ms,
+  - two63 <= ms * 1000000 < two63 -> time_to_ms (ms_to_time ms) = ms.
+Proof.
+  intros ms H. rewrite time_to_ms_of_ms, wrap64_id by exact H. lia.
+Qed.
+Print Assumptions ms_to_time_inverse.
+Example ms_to_time_inverse_ex :
+  - two63 <= (-1) * 1000000 < two63 /\ ms_to_time (-1) = {| unix_sec := -1; nsec := 999000000; offset := 0; zname := "UTC" |}
+  /\ time_to_ms (ms_to_time (-1)) = -1.
+Proof. vm_compute. repeat split; congruence. Qed.
+
+(** The property's round-trip demand fails beyond the int64 nanosecond range: the instant
+    9999-01-01T00:00:00.000Z (inside the property's domain) comes back negative.  This is the
+    Time.UnixNano overflow defect of timeToMS. *)
+Theorem time_to_ms_wraps_refuted :
+  exists ms, in_roundtrip_domain ms /\ t_year (ms_to_time ms) = 9999 /\
+             time_to_ms (ms_to_time ms) <> ms /\ time_to_ms (ms_to_time ms) < 0.
+Proof.
+  exists 253370764800000. unfold in_roundtrip_domain, ms_year_1000, ms_year_10000.
+  split; [lia|]. split; [vm_compute; reflexivity|].
+  split; [vm_compute; discriminate | vm_compute; reflexivity].
+Qed.
+Print Assumptions time_to_ms_wraps_refuted.
+
+(* the first instant after the epoch at which the round trip fails *)
+Example time_to_ms_first_failure :
+  time_to_ms (ms_to_time 9223372036854) = 9223372036854 /\
+  time_to_ms (ms_to_time 9223372036855) = -9223372036854.
+Proof. vm_compute. split; reflexivity. Qed.
+
+(* ------------------------------------------------------------------------------------------ *)
+(** * 4. The 12-hour clock of [h] *)
+
+(** What formatHour prints for [h]: the property's 12,1..11,12,1..11 except at midnight,
+    where it prints 0. *)
+Theorem hour12_spec : forall h, 0 <= h <= 23 ->
+  hour12_of h = if h =? 0 then 0 else hour12_demanded h.
+Proof.
+  intros h Hh. unfold hour12_of, hour12_demanded.
+  destruct (12 <? h) eqn:E1, (h =? 0) eqn:E2, (h mod 12 =? 0) eqn:E3; lia.
+Qed.
+Print Assumptions hour12_spec.
+
+Theorem hour12_refuted : exists h, 0 <= h <= 23 /\ hour12_of h <> hour12_demanded h.
+Proof. exists 0. split; [lia|]. vm_compute. discriminate. Qed.
+
+(* the deviation is exactly midnight *)
+Theorem hour12_deviates_only_at_midnight : forall h, 0 <= h <= 23 ->
+  (hour12_of h <> hour12_demanded h <-> h = 0).
+Proof.
+  intros h Hh. rewrite hour12_spec by exact Hh. unfold hour12_demanded.
+  destruct (h =? 0) eqn:E; destruct (h mod 12 =? 0) eqn:E3; lia.
+Qed.
+
+(* [h] is wired to hour12_of: whatever format_integer is, $fromMillis(0, "[h]") prints the
+   integer 0 (the property demands 12) *)
+Theorem from_millis_h_midnight (fi : Z -> string -> lres string) :
+  from_millis fi 0 (Some "[h]"%string) None = lbind (fi 0 "1"%string) (fun s => LOk (s ++ "")%string).
+Proof.
+  unfold from_millis. cbn [opt_string]. 
+  change (seqb "" "") with true. cbv iota.
+  change (seqb "[h]" "") with false. cbv iota.
+  unfold format_time.
+  change (runes_pos "[h]") with [(0%nat, 91); (1%nat, 104); (2%nat, 93)].
+  cbn [format_time_loop]. unfold format_time_step at 1.
+  change (91 =? 91) with true. cbv iota. cbn [fs_in_marker fs_start fs_result fs_dcb fs_expanded].
+  change (slice_checked "[h]" 0 0) with (@LOk string ""). cbn [lbind].
+  unfold format_time_step at 1.
+  change (104 =? 91) with false. change (104 =? 93) with false. cbv iota. cbn [lbind].
+  unfold format_time_step at 1.
+  change (93 =? 91) with false. change (93 =? 93) with true. cbv iota.
+  cbn [fs_in_marker fs_start fs_result fs_dcb fs_expanded].
+  change (2 =? 1)%nat with false. cbv iota.
+  change (slice_checked "[h]" 1 2) with (@LOk string "h"). cbn [lbind].
+  unfold expand_variable_marker.
+  change (parse_variable_marker "h") with (@LOk (Z * marker) (104, zero_marker)). cbn [lbind].
+  cbn [mk_format zero_marker]. change (seqb "" "") with true. cbv iota.
+  unfold with_default_format. change (default_date_format 104) with "1"%string.
+  unfold expand_date_component.
+  change (104 =? cY) with false. change (104 =? cM) with false. change (104 =? cD) with false.
+  change (104 =? cd) with false. change (104 =? cF) with false. change (104 =? cW) with false.
+  change (104 =? cw) with false. change (104 =? cH) with false. change (104 =? ch) with true.
+  cbv iota.
+  unfold format_hour. cbn [mk_format]. change (is_decimal_format "1") with true. cbn [negb].
+  change (t_hour (ms_to_time 0)) with 0. change (hour12_of 0) with 0.
+  unfold format_integer_component. cbn [mk_format mk_modifier].
+  destruct (fi 0 "1"%string) as [s| | | |]; cbn [lbind andb negb]; try reflexivity.
+  all: repeat match goal with |- context [seqb ?t "errUnsupported"] =>
+         destruct (seqb t "errUnsupported") end.
+  all: cbn [andb lbind fs_in_marker fs_expanded negb fs_result fs_start]; reflexivity.
+Qed.
+Print Assumptions from_millis_h_midnight.
+
+
+(* ------------------------------------------------------------------------------------------ *)
+(** * 5. parseTimeZone *)
+
+(* strconv.Atoi on a two-byte string: two digits, or a sign and one digit *)
+Definition pair_val (c1 c2 : ascii) : option Z :=
+  let b1 := byte_of c1 in
+  let b2 := byte_of c2 in
+  if is_digit_byte b2 then
+    if is_digit_byte b1 then Some (10 * (b1 - 48) + (b2 - 48))
+    else if Ascii.eqb c1 "+" then Some (b2 - 48)
+    else if Ascii.eqb c1 "-" then Some (- (b2 - 48))
+    else None
+  else None.
+
+Definition sign_val (c : ascii) : option Z :=
+  if Ascii.eqb c "-" then Some (-1) else if Ascii.eqb c "+" then Some 1 else None.
+
+(* the set of strings parseTimeZone really accepts, with the offset it computes *)
+Definition tz_accepts (s : string) : option Z :=
+  match s with
+  | String sg (String c1 (String c2 (String c3 (String c4 EmptyString)))) =>
+      match sign_val sg, pair_val c1 c2, pair_val c3 c4 with
+      | Some k, Some h, Some m => Some (k * (60 * (60 * h + m)))
+      | _, _, _ => None
+      end
+  | _ => None
+  end.
+
+Lemma go_atoi_shape s : go_atoi s =
+  match s with
+  | EmptyString => None
+  | String c r =>
+      let neg := Ascii.eqb c "-" in
+      let body := if Ascii.eqb c "+" || neg then r else s in
+      match body with
+      | EmptyString => None
+      | _ => match Z_of_dec_acc body 0 with
+             | None => None
+             | Some n => let v := if neg then - n else n in
+                         if (- two63 <=? v) && (v <? two63) then Some v else None
+             end
+      end
+  end.
+Proof.
+  destruct s as [|c r]; [reflexivity|].
+  destruct c as [[] [] [] [] [] [] [] []]; reflexivity.
+Qed.
+
+Lemma byte_of_range c : 0 <= byte_of c <= 255.
+Proof. destruct c as [[] [] [] [] [] [] [] []]; vm_compute; split; discriminate. Qed.
+
+Lemma byte_of_plus c : Ascii.eqb c "+" = true -> byte_of c = 43.
+Proof. intros H. apply Ascii.eqb_eq in H. now subst. Qed.
+Lemma byte_of_minus c : Ascii.eqb c "-" = true -> byte_of c = 45.
+Proof. intros H. apply Ascii.eqb_eq in H. now subst. Qed.
+
+Lemma go_atoi_two c1 c2 : go_atoi (String c1 (String c2 EmptyString)) = pair_val c1 c2.
+Proof.
+  rewrite go_atoi_shape. unfold pair_val. cbv zeta.
+  pose proof (byte_of_range c1) as R1. pose proof (byte_of_range c2) as R2.
+  destruct (Ascii.eqb c1 "+") eqn:Ep; [pose proof (byte_of_plus _ Ep) as B1|];
+  (destruct (Ascii.eqb c1 "-") eqn:Em; [pose proof (byte_of_minus _ Em) as B1'|]);
+  cbn [orb]; cbn [Z_of_dec_acc]; fold (is_digit_byte (byte_of c2)); fold (is_digit_byte (byte_of c1));
+  unfold is_digit_byte in *; unfold two63.
+  all: destruct ((48 <=? byte_of c2) && (byte_of c2 <=? 57)) eqn:D2;
+       destruct ((48 <=? byte_of c1) && (byte_of c1 <=? 57)) eqn:D1; try lia; try reflexivity.
+  all: match goal with |- (if ?b then _ else _) = _ => replace b with true by lia end; f_equal; lia.
+Qed.
+
+Theorem parse_time_zone_char : forall s,
+  parse_time_zone s = match tz_accepts s with
+                      | Some off => LOk (off, s)
+                      | None => LErr "invalid timezone"
+                      end.
+Proof.
+  intros s. unfold parse_time_zone, tz_accepts.
+  destruct s as [|sg [|c1 [|c2 [|c3 [|c4 [|c5 r]]]]]]; try reflexivity.
+  change (negb (slen _ =? 5)%nat) with false. cbv iota.
+  change (sslice 1 3 (String sg (String c1 (String c2 (String c3 (String c4 ""))))))
+    with (String c1 (String c2 "")).
+  change (sslice 3 5 (String sg (String c1 (String c2 (String c3 (String c4 ""))))))
+    with (String c3 (String c4 "")).
+  rewrite !go_atoi_two.
+  change (byte_at (String sg (String c1 (String c2 (String c3 (String c4 ""))))) 0) with (byte_of sg).
+  unfold sign_val.
+  pose proof (byte_of_range sg) as R.
+  destruct (Ascii.eqb sg "-") eqn:Em.
+  - rewrite (byte_of_minus _ Em). change (45 =? 45) with true. cbv iota.
+    destruct (pair_val c1 c2), (pair_val c3 c4); reflexivity.
+  - destruct (Ascii.eqb sg "+") eqn:Ep.
+    + rewrite (byte_of_plus _ Ep). change (43 =? 45) with false. change (43 =? 43) with true.
+      cbv iota. destruct (pair_val c1 c2), (pair_val c3 c4); reflexivity.
+    + assert (byte_of sg =? 45 = false) as ->.
+      { apply Z.eqb_neq. intros H. apply Ascii.eqb_neq in Em. apply Em.
+        destruct sg as [[] [] [] [] [] [] [] []]; vm_compute in H; try discriminate. reflexivity. }
+      assert (byte_of sg =? 43 = false) as ->.
+      { apply Z.eqb_neq. intros H. apply Ascii.eqb_neq in Ep. apply Ep.
+        destruct sg as [[] [] [] [] [] [] [] []]; vm_compute in H; try discriminate. reflexivity. }
+      reflexivity.
+Qed.
+Print Assumptions parse_time_zone_char.
+
+(** Every +HHMM / -HHMM string is accepted with the offset it denotes ... *)
+Theorem parse_time_zone_spec : forall s off, tz_denotes s off -> parse_time_zone s = LOk (off, s).
+Proof.
+  intros s off (sg & h1 & h2 & m1 & m2 & -> & Hsg & D1 & D2 & D3 & D4 & ->).
+  rewrite parse_time_zone_char. unfold tz_accepts, pair_val, sign_val.
+  unfold is_digit in *. unfold digit_val. fold (byte_of h1) (byte_of h2) (byte_of m1) (byte_of m2) in *.
+  unfold is_digit_byte. rewrite D1, D2, D3, D4.
+  destruct Hsg as [-> | ->]; reflexivity.
+Qed.
+Print Assumptions parse_time_zone_spec.
+Example parse_time_zone_ex : tz_denotes "-0730" (-27000) /\ parse_time_zone "-0730" = LOk (-27000, "-0730"%string).
+Proof.
+  split; [|reflexivity].
+  exists "-"%char, "0"%char, "7"%char, "3"%char, "0"%char. repeat split; auto.
+Qed.
+
+(** ... and a string whose four trailing characters are digits is accepted only if it is
+    +HHMM / -HHMM ... *)
+Theorem parse_time_zone_digits_only : forall sg h1 h2 m1 m2 off n,
+  is_digit h1 = true -> is_digit h2 = true -> is_digit m1 = true -> is_digit m2 = true ->
+  parse_time_zone (String sg (String h1 (String h2 (String m1 (String m2 EmptyString))))) = LOk (off, n) ->
+  tz_denotes (String sg (String h1 (String h2 (String m1 (String m2 EmptyString))))) off.
+Proof.
+  intros sg h1 h2 m1 m2 off n D1 D2 D3 D4 H.
+  rewrite parse_time_zone_char in H. unfold tz_accepts, pair_val, sign_val in H.
+  unfold is_digit in *. fold (byte_of h1) (byte_of h2) (byte_of m1) (byte_of m2) in *.
+  unfold is_digit_byte in H. rewrite D1, D2, D3, D4 in H.
+  exists sg, h1, h2, m1, m2. unfold is_digit, digit_val.
+  fold (byte_of h1) (byte_of h2) (byte_of m1) (byte_of m2).
+  destruct (Ascii.eqb sg "-") eqn:Em.
+  - apply Ascii.eqb_eq in Em. subst sg. inversion H. repeat split; auto.
+  - destruct (Ascii.eqb sg "+") eqn:Ep; [|discriminate].
+    apply Ascii.eqb_eq in Ep. subst sg. inversion H. repeat split; auto.
+Qed.
+
+(** ... but "accepts exactly [+-]DDDD" is false: strconv.Atoi takes a sign, so "+-1-2"
+    (and "++1+2", "-+0-0", ...) are accepted as time zones. *)
+Theorem parse_time_zone_exactly_refuted :
+  exists s off, parse_time_zone s = LOk (off, s) /\ ~ (exists off', tz_denotes s off').
+Proof.
+  exists "+-1-2"%string, (-3720). split; [reflexivity|].
+  intros (off' & sg & h1 & h2 & m1 & m2 & Hs & _ & D1 & _). inversion Hs. subst. discriminate.
+Qed.
+Print Assumptions parse_time_zone_exactly_refuted.
